@@ -182,6 +182,20 @@ Proof.
   - specialize (IH o' ca). rewrite E2 in IH. exact IH.
 Qed.
 
+Lemma get_drop_same ca cs : get ca (drop ca cs) = None.
+Proof.
+  induction cs as [|[k c] cs IH]; cbn; [reflexivity|].
+  destruct (Z.eqb k ca) eqn:E; cbn; [exact IH | rewrite E; exact IH].
+Qed.
+
+Lemma get_drop_other ca k cs : k <> ca -> get ca (drop k cs) = get ca cs.
+Proof.
+  intros Hne. induction cs as [|[k0 c] cs IH]; cbn; [reflexivity|].
+  destruct (Z.eqb k0 k) eqn:E; cbn.
+  - apply Z.eqb_eq in E. subst k0. destruct (Z.eqb k ca) eqn:E2; [apply Z.eqb_eq in E2; congruence | exact IH].
+  - destruct (Z.eqb k0 ca); [reflexivity | exact IH].
+Qed.
+
 Definition sinv (s : sst) : Prop :=
   forall ca, match get ca (sconns s) with
              | Some c => pend c ++ concat (to ca (stxq s)) = concat (to ca (squeued s))
@@ -193,7 +207,7 @@ Proof. unfold to. rewrite filter_app, map_app. reflexivity. Qed.
 
 Lemma s_step_inv s o : sinv s -> sinv (s_step s o).
 Proof.
-  intros H ca. specialize (H ca). destruct o as [p k| |orc]; cbn [s_step stxq sconns squeued].
+  intros H ca. specialize (H ca). destruct o as [p k| |orc|k]; cbn [s_step stxq sconns squeued].
   - destruct (get ca (sconns s)); [|exact I]. rewrite !to_app, !concat_app, app_assoc, H. reflexivity.
   - unfold s_service_tx.
     pose proof (s_tx_q_inv (stxq s) (sconns s) _ ca eq_refl) as Hq.
@@ -203,6 +217,9 @@ Proof.
   - pose proof (get_all_conn_service (sconns s) orc ca) as G.
     destruct (get ca (sconns s)) as [c|], (get ca (fst (all_conn_service (sconns s) orc))) as [c'|];
       try exact I; try contradiction. rewrite G. exact H.
+  - destruct (Z.eqb k ca) eqn:E.
+    + apply Z.eqb_eq in E. subst k. rewrite get_drop_same. exact I.
+    + rewrite get_drop_other by (intro; subst; rewrite Z.eqb_refl in E; discriminate). exact H.
 Qed.
 
 Lemma s_run_inv cas ops : sinv (s_run cas ops).
@@ -301,3 +318,80 @@ Qed.
 (* received packets are never empty when the chunks are not *)
 Definition chunks_nonempty (orc : list rres) : Prop :=
   Forall (fun r => match r with Data b => b <> [] | _ => True end) orc.
+
+(* ---------------- the stack queue drains past packets for dropped peers ---------------- *)
+Lemma get_upd_none k ca f cs : get k (upd ca f cs) = None <-> get k cs = None.
+Proof.
+  destruct (Z.eq_dec ca k) as [->|Hne].
+  - destruct (get k cs) as [c|] eqn:G.
+    + rewrite (get_upd_same k f cs c G). split; discriminate.
+    + split; auto. intros _. clear -G. induction cs as [|[k0 c0] cs IH]; cbn in *; [reflexivity|].
+      destruct (Z.eqb k0 k) eqn:E; [discriminate|]. cbn. rewrite E. apply IH, G.
+  - rewrite get_upd_other by exact Hne. tauto.
+Qed.
+
+Lemma unknowns_upd q ca f cs : unknowns q (upd ca f cs) = unknowns q cs.
+Proof.
+  unfold unknowns. f_equal. apply filter_ext. intros [p k]. cbn.
+  pose proof (get_upd_none k ca f cs) as H.
+  destruct (get k (upd ca f cs)), (get k cs); auto; exfalso; destruct H as [H1 H2];
+    [specialize (H2 eq_refl) | specialize (H1 eq_refl)]; discriminate.
+Qed.
+
+Lemma s_tx_q_progress q : forall cs,
+  match s_tx_q q cs with
+  | Ok (q', cs') => q' = [] /\ unknowns q cs = 0%nat
+  | ErrValue (q', cs') => S (unknowns q' cs') = unknowns q cs
+  end.
+Proof.
+  induction q as [|[p k] q IH]; intros cs; cbn [s_tx_q].
+  - split; reflexivity.
+  - destruct (get k cs) as [c0|] eqn:G.
+    + specialize (IH (upd k (conn_push p) cs)).
+      assert (E : unknowns ((p, k) :: q) cs = unknowns q (upd k (conn_push p) cs)).
+      { rewrite unknowns_upd. unfold unknowns. cbn [filter snd]. rewrite G. reflexivity. }
+      rewrite E. exact IH.
+    + unfold unknowns. cbn [filter snd]. rewrite G. reflexivity.
+Qed.
+
+Lemma stack_pass_progress s :
+  (stxq (stack_pass s) = [] /\ unknowns (stxq s) (sconns s) = 0%nat) \/
+  S (unknowns (stxq (stack_pass s)) (sconns (stack_pass s))) = unknowns (stxq s) (sconns s).
+Proof.
+  unfold stack_pass, s_service_tx. pose proof (s_tx_q_progress (stxq s) (sconns s)) as H.
+  destruct (s_tx_q (stxq s) (sconns s)) as [[q' cs']|[q' cs']]; cbn; [left|right]; exact H.
+Qed.
+
+Lemma stack_pass_empty s : stxq s = [] -> stxq (stack_pass s) = [].
+Proof. unfold stack_pass, s_service_tx. intros ->. reflexivity. Qed.
+
+Lemma stack_passes_empty n : forall s, stxq s = [] -> stxq (stack_passes n s) = [].
+Proof. induction n as [|n IH]; intros s H; [exact H|]. cbn. apply IH, stack_pass_empty, H. Qed.
+
+Lemma stack_drains n : forall s, (unknowns (stxq s) (sconns s) <= n)%nat ->
+  stxq (stack_passes (S n) s) = [].
+Proof.
+  induction n as [|n IH]; intros s H; cbn [stack_passes].
+  - destruct (stack_pass_progress s) as [[E _]|E]; [exact E | lia].
+  - destruct (stack_pass_progress s) as [[E _]|E].
+    + apply (stack_passes_empty (S n)), E.
+    + apply IH. lia.
+Qed.
+
+Lemma s_run_passes cas ops m : s_run cas (ops ++ repeat SSvcStack m) = stack_passes m (s_run cas ops).
+Proof.
+  unfold s_run. rewrite fold_left_app. generalize (fold_left s_step ops (s_init cas)).
+  induction m as [|m IH]; intros s; [reflexivity|]. cbn. apply IH.
+Qed.
+
+Lemma tx_past_dropped cas ops n :
+  (unknowns (stxq (s_run cas ops)) (sconns (s_run cas ops)) <= n)%nat ->
+  let s' := s_run cas (ops ++ repeat SSvcStack (S n)) in
+  stxq s' = [] /\
+  forall ca c, get ca (sconns s') = Some c -> wire c ++ concat (txes c) = concat (to ca (squeued s')).
+Proof.
+  intros H s'. assert (E : stxq s' = []) by (subst s'; rewrite s_run_passes; apply stack_drains, H).
+  split; [exact E|]. intros ca c G.
+  pose proof (s_run_inv cas (ops ++ repeat SSvcStack (S n)) ca) as I. fold s' in I.
+  rewrite G, E in I. cbn in I. rewrite app_nil_r in I. exact I.
+Qed.
